@@ -866,6 +866,17 @@ def gen_grid_cases(r, n):
         ("65536^4-wraps-to-0", [("0", "65536", "1")] * 4, False),
         ("46341^2-just-above-int", [("0", "46341", "1"), ("0", "46341", "1")], False),
         ("1024^2", [("0", "1024", "1"), ("0", "1024", "1")], False),
+        # the same shapes at other scales of the data, and upper boundaries a fraction of a bin beyond the last full one
+        ("scale-1e-8", [("0", "4e-8", "5e-9")], False),
+        ("scale-1e8", [("0", "4e8", "5e7")], False),
+        ("scale-1e-8-offset", [("-1e-8", "1e-8", "25e-10")], False),
+        ("scale-mixed-2d", [("0", "4e8", "1e8"), ("0", "3e-8", "1e-8")], False),
+        ("scale-1e-8-width-1", [("0", "4e-8", "1")], False),
+        ("scale-1e8-width-1e-8", [("0", "1e8", "1e-8")], False),
+        ("upper-0.4-bin-beyond", [("0", "4.2", "0.5")], False),
+        ("upper-0.6-bin-beyond", [("0", "4.3", "0.5")], False),
+        ("upper-0.6-bin-beyond-far", [("0", "400.3", "0.5")], False),
+        ("upper-0.4-bin-short", [("0", "3.8", "0.5")], False),
     ]
     out = [{"label": l, "dims": d, "ambiguous": a} for l, d, a in fixed]
     sizes = [1, 2, 3, 16, 1000, 65536, 46341, 2147483647, 2147483648, 4294967296]
